@@ -3,7 +3,7 @@
    get_block / register_* / remove_duplicates; `run cache_on …` folds `step` over any operation list.
    The four rounding functions of duplicate removal are arbitrary here. *)
 From Coq Require Import List Bool ZArith QArith Qcanon.
-From PV Require Import Base.AList Base.QUtil Gen.GenCache Model.EventLib Model.Seq Proofs.SeqSpec Proofs.SeqCache.
+From PV Require Import Base.AList Base.QUtil Gen.GenCache Model.EventLib Model.Seq Proofs.SeqSpec Proofs.SeqCache Proofs.SeqStored.
 Import ListNotations.
 Open Scope Z_scope.
 
@@ -84,6 +84,54 @@ Theorem C06_distinct_never_share : forall (l : klib) k1 k2 ty1 ty2,
   let '(l2, id2, _) := kfoi l1 k2 ty2 in id1 <> id2.
 Proof. exact kfoi_distinct. Qed.
 Print Assumptions C06_distinct_never_share.
+
+(* ---- get_block returns what was stored (trapezoids and ADC events, handed over by value) ------------- *)
+(* After ANY history of block writes, block reads, registrations and write() on a fresh sequence: when
+   set_block(i, ...) succeeds, the block decoded at i carries on the channel of every trapezoid of the call exactly
+   that trapezoid's (amplitude, rise, flat, fall, delay), tagged as a trapezoid, and as ADC exactly the ADC of the call. *)
+Theorem C06_set_block_stored_is_returned : forall cache_on abs_fix r1 r2 r3 r4 ops g sr sl e i evs hint b,
+  Forall op_plain ops -> Forall ev_ok evs ->
+  let s := fst (run cache_on abs_fix r1 r2 r3 r4 (mkState (core_init g sr sl e) []) ops) in
+  let res := step cache_on abs_fix r1 r2 r3 r4 s (SetBlock i evs hint) in
+  snd res = ONone ->
+  decode (st_core (fst res)) i = Some b ->
+  (forall ch amp rise flat fall delay, In (MTrap ch None amp rise flat fall delay) evs ->
+     nth ch (d_g b) None = Some (mkDGrad tag_t [amp; rise; flat; fall; delay] [])) /\
+  (forall num dwell delay freq phoff dead, In (MAdc None num dwell delay freq phoff dead) evs ->
+     d_adc b = Some [num; dwell; delay; freq; phoff; dead]).
+Proof. exact set_block_then_decode. Qed.
+Print Assumptions C06_set_block_stored_is_returned.
+
+Theorem C06_add_block_stored_is_returned : forall cache_on abs_fix r1 r2 r3 r4 ops g sr sl e evs hint b,
+  Forall op_plain ops -> Forall ev_ok evs ->
+  let s := fst (run cache_on abs_fix r1 r2 r3 r4 (mkState (core_init g sr sl e) []) ops) in
+  let res := step cache_on abs_fix r1 r2 r3 r4 s (AddBlock evs hint) in
+  snd res = ONone ->
+  decode (st_core (fst res)) (next_block (st_core s)) = Some b ->
+  (forall ch amp rise flat fall delay, In (MTrap ch None amp rise flat fall delay) evs ->
+     nth ch (d_g b) None = Some (mkDGrad tag_t [amp; rise; flat; fall; delay] [])) /\
+  (forall num dwell delay freq phoff dead, In (MAdc None num dwell delay freq phoff dead) evs ->
+     d_adc b = Some [num; dwell; delay; freq; phoff; dead]).
+Proof. exact add_block_then_decode. Qed.
+Print Assumptions C06_add_block_stored_is_returned.
+
+(* ... and it stays what get_block decodes there until index i is written again ("most recently stored"):
+   no later block write to another index, block read, registration or write() changes it. *)
+Theorem C06_stored_until_overwritten : forall cache_on abs_fix r1 r2 r3 r4 s o i b,
+  core_inv (st_core s) -> op_plain o -> ~ writes_index s o i ->
+  decode (st_core s) i = Some b ->
+  decode (st_core (fst (step cache_on abs_fix r1 r2 r3 r4 s o))) i = Some b.
+Proof. exact step_keeps_stored. Qed.
+Print Assumptions C06_stored_until_overwritten.
+
+(* the invariant these rest on (faithful lookups of the gradient and ADC libraries) holds in every such state *)
+Theorem C06_lookup_invariant_reachable : forall cache_on abs_fix r1 r2 r3 r4 ops g sr sl e,
+  Forall op_plain ops ->
+  ga_inv (st_core (fst (run cache_on abs_fix r1 r2 r3 r4 (mkState (core_init g sr sl e) []) ops))).
+Proof. exact run_ga_inv. Qed.
+Print Assumptions C06_lookup_invariant_reachable.
+
+Example C06_stored_example := stored_example.
 
 (* The one-step invariant needs duplicate-free cache keys (always true of reachable caches): a
    kernel-checked counterexample for the version without it. *)
